@@ -297,22 +297,47 @@ def run_case(case):
             def norm(v):
                 return repr(float(v)) if isinstance(v, lab.NUM) and not isinstance(v, bool) else repr(v)
             index, alive = {}, [True] * len(pool)
+            buckets = {}        # (field, value) -> expected rows sharing that plain field value
             for e in exp_tail:
-                f = next((k for k, v in e.items() if v is not None and not isinstance(
+                f = next((k for k, v in sorted(e.items()) if v is not None and not isinstance(
                     v, (refmodel.AnyOf, refmodel.AsSet, refmodel.AsCounters, refmodel.EitherOf, list))), None)
+                buckets.setdefault((f, norm(e[f]) if f is not None else None), []).append(e)
+            for (f, val), exps in buckets.items():
                 if f is None:
-                    cand = range(len(pool))
+                    cand = [j for j in range(len(pool)) if alive[j]]
                 else:
                     if f not in index:
                         index[f] = {}
                         for j, g in enumerate(pool):
                             index[f].setdefault(norm(g.get(f)), []).append(j)
-                    cand = index[f].get(norm(e[f]), [])
-                hit = next((j for j in cand if alive[j] and match_row(e, pool[j])), None)
-                if hit is not None:
-                    alive[hit] = False
+                    cand = [j for j in index[f].get(val, []) if alive[j]]
+                if len(exps) * len(cand) <= 40000:
+                    # maximum bipartite matching inside the bucket (markers such as `any` make first-fit unsound)
+                    adj = [[j for j in cand if match_row(e, pool[j])] for e in exps]
+                    owner = {}
+
+                    def augment(i, seen_):
+                        for j in adj[i]:
+                            if j in seen_:
+                                continue
+                            seen_.add(j)
+                            if j not in owner or augment(owner[j], seen_):
+                                owner[j] = i
+                                return True
+                        return False
+                    for i in range(len(exps)):
+                        augment(i, set())
+                    got_e = set(owner.values())
+                    for j in owner:
+                        alive[j] = False
+                    rest.extend(e for i, e in enumerate(exps) if i not in got_e)
                 else:
-                    rest.append(e)
+                    for e in exps:
+                        hit = next((j for j in cand if alive[j] and match_row(e, pool[j])), None)
+                        if hit is not None:
+                            alive[hit] = False
+                        else:
+                            rest.append(e)
             pool = [g for j, g in enumerate(pool) if alive[j]]
         if rest and len(rest) <= 40:
             # pair the leftovers globally by ascending number of differing fields, then name the fields
